@@ -122,6 +122,8 @@ pub enum FaultOp {
     TokenFactoryRejects,
     AbortAtStorageAccess(u16),
     BackgroundTraffic(u16),
+    /// the transfer module accepts the next submission but answers without (0) or with undecodable (1) response data
+    ReplyData(u8),
 }
 
 #[derive(Serialize, Deserialize, Clone, Copy, Debug, PartialEq)]
@@ -205,6 +207,8 @@ pub enum Profile {
     Halt,
     /// restricted to protocol-chain recipients, with mid-run migration
     Upgrade,
+    /// one account, tiny unstakes, a submission per batch period: many batches and many open requests
+    ManyBatches,
 }
 
 #[derive(Serialize, Deserialize, Clone, Debug, PartialEq)]
